@@ -20,6 +20,7 @@ import (
 
 	"github.com/dominant-strategies/go-quai/common"
 	"github.com/dominant-strategies/go-quai/core"
+	"github.com/dominant-strategies/go-quai/core/types"
 )
 
 func dumpView(v *core.VerifView, head *blockRec) string {
@@ -216,6 +217,12 @@ func (h *harness) oracle(after string, level int) {
 		}
 	}
 
+	if uint64(len(v.QiPool)) > v.Config.QiPoolSize {
+		bad("qi-pool-limit", fmt.Sprintf("%d Qi transactions > QiPoolSize %d", len(v.QiPool), v.Config.QiPoolSize))
+	}
+	if len(v.QiPool) > 0 {
+		h.inc("probe.qi_pool_nonempty")
+	}
 	// probes (rare conditions reached)
 	if len(v.EmptyQueue) > 0 {
 		h.inc("probe.empty_queue_list_object")
@@ -296,5 +303,33 @@ func (h *harness) oracle(after string, level int) {
 }
 
 func (h *harness) qiOp(c *client, op opT) {
-	h.s.event("op c%d qi skipped", c.id)
+	i := op.B % (nQi + 1)
+	hs := []*common.Hash{&qiHashes[i], &qiHashes[(i+1)%nQi]}
+	switch op.A % 6 {
+	case 0, 1, 2:
+		errs := h.pool.AddRemotes([]*types.Transaction{newQiTx(i)})
+		res := "ok"
+		if errs[0] != nil {
+			res = "rejected"
+			if errClass(errs[0]) == "known" {
+				res = "known"
+			}
+		}
+		h.inc("verdict.qi-" + res)
+		h.s.event("op c%d qi-add %d -> %s", c.id, i, res)
+		c.log = append(c.log, fmt.Sprintf("qi-add %d -> %s", i, res))
+	case 3:
+		tx := newQiTx(i)
+		err := h.pool.AddLocal(tx)
+		h.s.event("op c%d qi-add-local %d -> %v", c.id, i, err == nil)
+		c.log = append(c.log, fmt.Sprintf("qi-add-local %d -> %v", i, err == nil))
+	case 4:
+		h.pool.RemoveQiTxs(hs)
+		h.s.event("op c%d qi-remove %d", c.id, i)
+		c.log = append(c.log, fmt.Sprintf("qi-remove %d", i))
+	case 5:
+		h.pool.AsyncRemoveQiTxs(hs)
+		h.s.event("op c%d qi-async-remove %d", c.id, i)
+		c.log = append(c.log, fmt.Sprintf("qi-async-remove %d", i))
+	}
 }
